@@ -371,7 +371,10 @@ def run_unit(unit, progress):
         if i % 12 == 7:
             prog = syncshared_program(rnd)
             inc("programs_waiting_synchronously_for_a_task_already_on_the_schedulers_stack")
-        if i % 12 == 9:
+        if i % 24 == 21:
+            prog = gen.survivor_program(rnd)
+            inc("programs_recovering_from_the_recursion_guard_in_a_nested_sync_call")
+        elif i % 12 == 9:
             prog = overflow_program(rnd)
             inc("programs_recovering_from_the_recursion_guard_in_a_nested_sync_call")
         how = ["call", "value", "yielded", "yielded_value"][i % 4]
